@@ -4,14 +4,39 @@ package main
 // and connected to the symbolic Lua interpreter (lua.go).
 
 import (
+	"crypto/sha256"
 	"fmt"
 	"go/types"
 	"os"
 	"path/filepath"
 	"strings"
+	"sync"
 
 	"golang.org/x/tools/go/ssa"
 )
+
+var (
+	luaSourcesMu sync.Mutex
+	luaSources   = map[string]string{}
+)
+
+func noteLuaSource(text, rel string) {
+	luaSourcesMu.Lock()
+	luaSources[text] = rel
+	luaSourcesMu.Unlock()
+}
+
+// luaSourceName names a Lua chunk for the evidence file: the repository path of a shipped script, or a digest of
+// a harness-supplied plugin.
+func luaSourceName(text string) string {
+	luaSourcesMu.Lock()
+	rel, ok := luaSources[text]
+	luaSourcesMu.Unlock()
+	if ok {
+		return repoMod + "/" + rel + " (Lua chunk, executed symbolically)"
+	}
+	return fmt.Sprintf("%s harness-supplied Lua plugin sha256:%x (executed symbolically)", repoMod, sha256.Sum256([]byte(text)))[:len(repoMod)+60] + "…"
+}
 
 type luaStateBox struct {
 	ret []LVal
@@ -63,8 +88,8 @@ func (ex *Exec) goToLua(v Value, li *luaInterp) LVal {
 			return LBoolV{x}
 		}
 	case FloatV:
-		if x.f == float64(int64(x.f)) {
-			return LNumV{mkInt(int64(x.f))}
+		if it, ok := x.intTerm(); ok {
+			return LNumV{it}
 		}
 		ex.unsupported("non-integral float passed to Lua")
 	case MapV:
@@ -316,6 +341,7 @@ func init() {
 		if err != nil {
 			ex.unsupported("RepoFile: " + err.Error())
 		}
+		noteLuaSource(string(b), rel)
 		return mkStr(string(b))
 	})
 	add(repoMod+"/pkg/util.GetLuaConfigurationContent", func(ex *Exec, fr *frame, fn *ssa.Function, args []Value, pos tokenPos) Value {
@@ -324,6 +350,7 @@ func init() {
 		if err != nil {
 			return mkStr("")
 		}
+		noteLuaSource(string(b), rel)
 		return mkStr(string(b))
 	})
 	add("(*"+repoMod+"/pkg/util/luamanager.LuaManager).RunLuaScript", func(ex *Exec, fr *frame, fn *ssa.Function, args []Value, pos tokenPos) Value {
@@ -335,6 +362,7 @@ func init() {
 		if script.op != "c" {
 			ex.unsupported("RunLuaScript with a symbolic script (ConfigMap-supplied programs are outside the claim)")
 		}
+		ex.h.funcs[luaSourceName(script.s)]++
 		li := &luaInterp{ex: ex}
 		obj := ex.goToLua(ex.load(objP.c.subs[0]), li)
 		ret, errMsg := ex.runLua(script.s, obj)
